@@ -11,6 +11,7 @@ mod methods;
 mod num;
 mod params;
 mod prefix;
+mod soak;
 mod tok;
 mod util;
 mod window;
@@ -46,6 +47,7 @@ fn dispatch(cmd: &str, rest: &[String]) {
 		"cfg-replay" => indicators::cfg_replay(rest),
 		"ind-api-replay" => indicators::api_replay(rest),
 		"ind-record" => indicators::record(rest),
+		"soak-record" => soak::record(rest),
 		"num-record" => num::record(rest),
 		"tok-replay" => tok::replay(rest),
 		"tok-record" => tok::record(rest),
